@@ -27,7 +27,7 @@ COMPONENTS = {"real": ["pyjelly frame iterator, Decoder living across frames, fl
                        "shared Stream, Graphs/DatasetsFrameFlow"],
               "stub": ["reframe fault (simkit.wire row slicing: rows are never re-encoded)", "oracle: simkit.refdec"]}
 ASSUMPTIONS = ["frames produced for empty inputs are not judged", "rdflib sinks compared as sets"]
-PROBES = ["frames_without_statements", "retained_sinks_compared", "first_input_empty", "grouped_write_with_namespaces", "big_group_runs", "grouped_write_flat_logical", "reframe_runs", "grouped_write_runs", "empty_frames_inserted", "metadata_frames", "leading_empty_frame",
+PROBES = ["frames_without_statements", "several_leading_rowless_frames", "retained_sinks_compared", "first_input_empty", "grouped_write_with_namespaces", "big_group_runs", "grouped_write_flat_logical", "reframe_runs", "grouped_write_runs", "empty_frames_inserted", "metadata_frames", "leading_empty_frame",
           "single_row_frames", "rdflib_runs", "empty_inputs", "physical_GRAPHS"]
 SHRINK_LISTS = ["ops", "items"]
 
@@ -105,6 +105,12 @@ def repartition(rows, sim):
         frames.append(wire.Frame([], refenc.metadata_for(sim, 0) if sim.flip(1, 2, "md") else []))
         sim.count("leading_empty_frame")
         sim.count("empty_frames_inserted")
+        # sometimes a run of them: with and without metadata, in any order (a reader that sets row-less leading
+        # frames aside has to hand them out again in the order they came)
+        while len(frames) < 4 and sim.flip(1, 2, "lead_more"):
+            frames.append(wire.Frame([], refenc.metadata_for(sim, len(frames)) if sim.flip(1, 2, "md") else []))
+            sim.count("several_leading_rowless_frames")
+            sim.count("empty_frames_inserted")
     mode = sim.choose(4, "mode")       # 0: few cuts, 1: many, 2: every row, 3: one frame
     for i, r in enumerate(rows):
         cur.rows.append(r)
